@@ -11,6 +11,7 @@ package main
 //   C03 smx   … same as sm; the Lean side computes the specification value only (no hand model): the must-have scalar classes
 //   C03 joint <gen|base>             <curve> <grp> <field> <a> <b> <r> <G> <e1> <P> <e2> <Q> <s1> <s2>
 //   C03 jointbig … same as joint, |s| ≥ 2^(64·fr.Limbs) (reproduces the known index panic; kept under its own kind)
+//   C03 jointx … same as joint; the Lean side computes the specification value only (scalars far outside [0, r), any size)
 //   C03 batch -                      <curve> <grp> <field> <a> <b> <r> <G> <e> <P> <s,s,…|->
 //   C03 batchpow -                   <curve> <grp> <field> <a> <b> <r> <G> <e> <P> <N> <α> <β> <i,i,…|->   batch of the N scalars
 //                                    s_i = β·α^i mod r; only the entries i of the sample are printed (large batches: every window size)
@@ -179,7 +180,7 @@ func execC03(a []string) string {
 		return t.sm(a[1], a[9], parseBig(a[10]))
 	}
 	switch a[0] {
-	case "curve", "sm", "smx", "joint", "jointbig", "batch", "batchpow":
+	case "curve", "sm", "smx", "joint", "jointbig", "jointx", "batch", "batchpow":
 	default:
 		return "bad-op"
 	}
@@ -213,7 +214,7 @@ func execC03(a []string) string {
 			return "bad-op"
 		}
 		return g.sm(a[1], rest[3], parseBig(rest[4]))
-	case "joint", "jointbig":
+	case "joint", "jointbig", "jointx":
 		if len(rest) != 6 {
 			return "bad-op"
 		}
@@ -508,6 +509,63 @@ func genC03(g *gen) {
 			}
 			g.emit("C03 %s %s %s %s %s %s %s %s", op, l.v, gr.params(), gr.w, gr.lam, l.P.e, l.P.tok, hexBig(l.s))
 		}
+		// class (d): scalars far outside [0, r) through every entry point: both signs, three zones of bit length (c03FarBits).
+		// cheap shape ±(k·r + t) under `smx` (short specification value), one full-length shape per entry point
+		zones := c03FarBits(n, gr.limbs)
+		zl := [][]int{zones.A, zones.B, zones.C}
+		psmall := mk(big.NewInt(int64(2 + g.rng.intn(254))))
+		{
+			emitFar := func(op, v string, P pt, s *big.Int) {
+				g.emit("C03 %s %s %s %s %s %s %s %s", op, v, gr.params(), gr.w, gr.lam, P.e, P.tok, hexBig(s))
+			}
+			flip := g.rng.intn(2)
+			cnt := 0
+			for vi, v := range variants {
+				base := v[:2] == "ba"
+				for zi, z := range zl {
+					type ts struct {
+						T   int
+						neg bool
+					}
+					var l []ts
+					if g.thorough() {
+						for _, T := range z {
+							l = append(l, ts{T, true}, ts{T, false})
+						}
+					} else {
+						l = []ts{{z[g.rng.intn(len(z))], true}, {z[g.rng.intn(len(z))], false}}
+					}
+					for _, x := range l {
+						P := pts[1]
+						if !base && zi == 1 {
+							P = psmall
+						}
+						if !base && g.thorough() && cnt%19 == 3 {
+							P = prand
+						}
+						op := "smx"
+						if (!g.thorough() && vi == 0 && zi == 0 && x.neg) || (g.thorough() && cnt%24 == 5 && x.T <= 128*gr.limbs+1) {
+							op = "sm" // the hand model of the entry point on a far scalar
+						}
+						emitFar(op, v, P, c03FarCheap(g.rng, gr.r, x.T, x.neg))
+						cnt++
+					}
+				}
+				// full-length residues
+				if g.thorough() {
+					for i, T := range append(append(append([]int(nil), zones.A...), zones.B...), zones.C...) {
+						if (i+vi)%len(variants) == 0 { // every length once, the entry point rotates
+							emitFar("smx", v, ptFor(v, i+vi), c03FarCostly(g.rng, T, g.rng.intn(4), g.rng.coin()))
+						}
+					}
+				} else if cost <= 4 || vi == 0 || vi == 1 || vi == 3 { // expensive groups: aff, jac, base only
+					z := zl[1+(vi+flip)%2]
+					emitFar("smx", v, pts[1], c03FarCostly(g.rng, z[g.rng.intn(len(z))], g.rng.intn(4), (vi+flip)%2 == 0))
+				}
+			}
+			// [s]O = O for a far negative scalar
+			emitFar("smx", "jac", pts[0], c03FarCheap(g.rng, gr.r, zones.C[g.rng.intn(len(zones.C))], true))
+		}
 		// joint: pairs of lattice scalars; scalars ≥ 2^(64·limbs) go under `jointbig`
 		lim := bigPow2(64 * gr.limbs)
 		nj := g.budget(2, 60)
@@ -575,6 +633,91 @@ func genC03(g *gen) {
 					P = prand
 				}
 				g.emit("C03 joint %s %s %s %s %s %s %s %s", l.v, gr.params(), P.e, P.tok, Q.e, Q.tok, hexBig(l.s1), hexBig(l.s2))
+			}
+		}
+		// joint, class (d): the sign and the size of the two scalars vary independently: {far, far}, {far, in range}, {in range, far}
+		// × four sign patterns, both entry points; in-range scalars with a short residue (t, r − t); far ones ±(k·r + t)
+		if gr.joint != nil {
+			inr := func(neg bool) *big.Int {
+				t := big.NewInt(int64(g.rng.intn(1 << 16)))
+				if g.rng.intn(3) == 0 {
+					t.Sub(gr.r, t)
+				}
+				if neg {
+					t.Neg(t)
+				}
+				return t
+			}
+			nJ := 0
+			emitJ := func(v string, P, Q pt, s1, s2 *big.Int) {
+				// mostly `jointx` (specification value only); one line in six also runs the hand model of the Straus-Shamir loop
+				kind := "jointx"
+				if nJ%6 == 2 {
+					kind = "joint"
+					if new(big.Int).Abs(s1).Cmp(lim) >= 0 || new(big.Int).Abs(s2).Cmp(lim) >= 0 {
+						kind = "jointbig"
+					}
+				}
+				nJ++
+				g.emit("C03 %s %s %s %s %s %s %s %s %s", kind, v, gr.params(), P.e, P.tok, Q.e, Q.tok, hexBig(s1), hexBig(s2))
+			}
+			var allT []int
+			for _, z := range zl {
+				allT = append(allT, z...)
+			}
+			cnt := g.rng.intn(3)
+			one := func(T1, T2 int, sg, shape int) {
+				n1, n2 := sg&1 == 1, sg&2 == 2
+				var s1, s2 *big.Int
+				if shape != 2 {
+					s1 = c03FarCheap(g.rng, gr.r, T1, n1)
+				} else {
+					s1 = inr(n1)
+				}
+				if shape != 1 {
+					s2 = c03FarCheap(g.rng, gr.r, T2, n2)
+				} else {
+					s2 = inr(n2)
+				}
+				v, P, Q := "gen", pts[1], pts[1]
+				if cnt%2 == 1 {
+					v = "base"
+				} else if cnt%4 == 2 {
+					P = psmall
+				}
+				if cnt%3 == 0 {
+					Q = psmall
+				}
+				cnt++
+				emitJ(v, P, Q, s1, s2)
+			}
+			if g.thorough() {
+				for i, T := range allT {
+					for sg := 0; sg < 4; sg++ {
+						one(T, allT[g.rng.intn(len(allT))], sg, (i+sg)%3)
+					}
+				}
+			} else {
+				for shape := 0; shape < 3; shape++ {
+					for sg := 0; sg < 4; sg++ {
+						z1, z2 := zl[(shape+sg)%3], zl[(shape+sg+1+g.rng.intn(2))%3]
+						one(z1[g.rng.intn(len(z1))], z2[g.rng.intn(len(z2))], sg, shape)
+					}
+				}
+			}
+			// full-length residues, independent signs
+			for i := 0; i < g.budget(2, 16); i++ {
+				zf := zl[1+i%2]
+				far := c03FarCostly(g.rng, zf[g.rng.intn(len(zf))], g.rng.intn(4), g.rng.coin())
+				in := g.rng.signed(g.rng.bigExact(n - g.rng.intn(2)))
+				if i%4 == 3 {
+					in = c03FarCostly(g.rng, allT[g.rng.intn(len(allT))], g.rng.intn(4), g.rng.coin())
+				}
+				if i%2 == 0 {
+					emitJ("gen", pts[1], pts[1], far, in)
+				} else {
+					emitJ("base", pts[1], pts[1], in, far)
+				}
 			}
 		}
 		for i := 0; i < nj; i++ {
@@ -758,6 +901,59 @@ func genC03(g *gen) {
 				op = "tex"
 			}
 			g.emit("C03 %s %s %s %s %s %s", op, l.v, t.params(), l.P.e, l.P.tok, hexBig(l.s))
+		}
+		// class (d): scalars far outside [0, order), three coordinate systems, both signs
+		{
+			zones := c03FarBits(n, limbs)
+			zl := [][]int{zones.A, zones.B, zones.C}
+			psmall := mk(big.NewInt(int64(2 + g.rng.intn(254))))
+			emitFar := func(op, v string, P pt, s *big.Int) {
+				g.emit("C03 %s %s %s %s %s %s", op, v, t.params(), P.e, P.tok, hexBig(s))
+			}
+			flip := g.rng.intn(2)
+			cnt := 0
+			for vi, v := range []string{"aff", "proj", "ext"} {
+				for zi, z := range zl {
+					type ts struct {
+						T   int
+						neg bool
+					}
+					var l []ts
+					if g.thorough() {
+						for _, T := range z {
+							l = append(l, ts{T, true}, ts{T, false})
+						}
+					} else {
+						l = []ts{{z[g.rng.intn(len(z))], true}, {z[g.rng.intn(len(z))], false}}
+					}
+					for _, x := range l {
+						P := pts[1]
+						if zi == 1 {
+							P = psmall
+						}
+						if g.thorough() && cnt%19 == 3 {
+							P = pts[2]
+						}
+						op := "tex"
+						if (!g.thorough() && vi == 0 && zi == 0 && x.neg) || (g.thorough() && cnt%24 == 5 && x.T <= 128*limbs+1) {
+							op = "te"
+						}
+						emitFar(op, v, P, c03FarCheap(g.rng, t.n, x.T, x.neg))
+						cnt++
+					}
+				}
+				if g.thorough() {
+					for i, T := range append(append(append([]int(nil), zones.A...), zones.B...), zones.C...) {
+						if (i+vi)%3 == 0 { // every length once, the coordinate system rotates
+							emitFar("tex", v, pts[1+(i/3)%2], c03FarCostly(g.rng, T, g.rng.intn(4), g.rng.coin()))
+						}
+					}
+				} else {
+					z := zl[1+(vi+flip)%2]
+					emitFar("tex", v, pts[1], c03FarCostly(g.rng, z[g.rng.intn(len(z))], g.rng.intn(4), (vi+flip)%2 == 0))
+				}
+			}
+			emitFar("tex", "ext", pts[0], c03FarCheap(g.rng, t.n, zones.C[g.rng.intn(len(zones.C))], true))
 		}
 	}
 	// malformed stream: both sides must classify alike
